@@ -182,7 +182,9 @@ func (h *c16HashState) advPairs(out string, mustHit []string, add func(*c16Findi
 		}
 		ia, ib := c16HashInput{Bytes: c16HexAll(a)}, c16HashInput{Bytes: c16HexAll(b)}
 		c := &c16HashCase{Fn: "SHA512_256", A: ia, B: ib, Note: note}
-		add(c16HashEval(c), c16Scenario{Kind: "hash", Hash: c})
+		f1 := c16HashEval(c)
+		h.collided(f1, c.Fn, pr.By)
+		add(f1, c16Scenario{Kind: "hash", Hash: c})
 		classes[c16DiffClass("SHA512_256", ia, ib)]++
 		h.cov.Case("pair:b:"+strings.Join(ia.Bytes, "|")+"/"+strings.Join(ib.Bytes, "|"), true)
 		if !c16IntsFaithful(a) || !c16IntsFaithful(b) {
@@ -191,11 +193,15 @@ func (h *c16HashState) advPairs(out string, mustHit []string, add func(*c16Findi
 		xa, xb := c16AsInts(a), c16AsInts(b)
 		ja, jb := c16HashInput{Ints: c16DecAll(xa)}, c16HashInput{Ints: c16DecAll(xb)}
 		c2 := &c16HashCase{Fn: "SHA512_256i", A: ja, B: jb, Note: note}
-		add(c16HashEval(c2), c16Scenario{Kind: "hash", Hash: c2})
+		f2 := c16HashEval(c2)
+		h.collided(f2, c2.Fn, pr.By)
+		add(f2, c16Scenario{Kind: "hash", Hash: c2})
 		ta, tb := ja, jb
 		ta.Tag, tb.Tag = hex.EncodeToString(tag), hex.EncodeToString(tag)
 		c3 := &c16HashCase{Fn: "SHA512_256i_TAGGED", A: ta, B: tb, Note: note}
-		add(c16HashEval(c3), c16Scenario{Kind: "hash", Hash: c3})
+		f3 := c16HashEval(c3)
+		h.collided(f3, c3.Fn, pr.By)
+		add(f3, c16Scenario{Kind: "hash", Hash: c3})
 		h.cov.Case("pair:i:"+strings.Join(ja.Ints, ",")+"/"+strings.Join(jb.Ints, ","), true)
 		// the commitment: a = (r, secrets...) and b = another sequence must not share a commitment, and b must not open it
 		pc := &c16CommitCase{Kind: "pair", R: ja.Ints[0], Secrets: ja.Ints[1:], D2: jb.Ints}
@@ -228,6 +234,19 @@ func (h *c16HashState) advPairs(out string, mustHit []string, add func(*c16Findi
 	return nil
 }
 
+// collided notes that the real function fn maps a pair to one digest (by: the variants under which TLC finds it colliding).
+func (h *c16HashState) collided(f *c16Finding, fn string, by []string) {
+	if h.pairHits == nil {
+		h.pairHits, h.weakBy = map[string]int{}, map[string]bool{}
+	}
+	for _, v := range by {
+		h.weakBy[v] = true
+	}
+	if f != nil && !f.Inconcl {
+		h.pairHits[fn]++
+	}
+}
+
 // ---------------------------------------------------------------- identification of the framing
 
 // identify: PROBES (the probe tuples) and PROBE rows (variant name, frames of the probes under it).
@@ -237,7 +256,7 @@ func (h *c16HashState) identify(out string) error {
 		return core.Inconcl("cannot read the probe tuples: %v", err)
 	}
 	tag := []byte("C16 session tag")
-	T := common.SHA512_256(tag)
+	T := append([]byte{}, common.SHA512_256(tag)...)
 	type dig struct{ b, i, t []byte }
 	lib := make([]dig, len(probes))
 	for k, pv := range probes {
@@ -246,7 +265,7 @@ func (h *c16HashState) identify(out string) error {
 			return core.Inconcl("bad probe tuple %d: %v", k, err)
 		}
 		it := c16AsInts(t)
-		lib[k] = dig{common.SHA512_256(t...), common.SHA512_256i(it...).FillBytes(make([]byte, 32)), common.SHA512_256i_TAGGED(tag, it...).FillBytes(make([]byte, 32))}
+		lib[k] = dig{append([]byte{}, common.SHA512_256(t...)...), common.SHA512_256i(it...).FillBytes(make([]byte, 32)), common.SHA512_256i_TAGGED(tag, it...).FillBytes(make([]byte, 32))}
 	}
 	ident := map[string][]string{"SHA512_256": {}, "SHA512_256i": {}, "SHA512_256i_TAGGED": {}}
 	nv := 0
@@ -294,6 +313,16 @@ func (h *c16HashState) identify(out string) error {
 		return core.Inconcl("framing identification: %d variants read (%v)", nv, err)
 	}
 	h.identified = ident
+	// consistency of the two bindings: a function that follows, byte for byte, a framing under which TLC's pairs collide must
+	// have been convicted by those pairs
+	for fn, names := range ident {
+		for _, v := range names {
+			if h.weakBy[v] && h.pairHits[fn] == 0 {
+				return core.Inconcl("%s follows the framing %s of the specification on every probe, TLC's pairs collide under it, but the function separated every pair", fn, v)
+			}
+		}
+	}
+	h.cov.Set("adversarial_pairs_with_one_digest (per function)", h.pairHits)
 	h.cov.Set("framing_identified (pre/delimiter/field; the code is count/$/len)", ident)
 	h.cov.Set("framing_variants_probed", nv)
 	return nil
